@@ -1967,3 +1967,64 @@ Proof.
   destruct (N.eqb t 1); [cbn in H; discriminate H|]. destruct (N.eqb t 2); [|cbn in H; discriminate H].
   cbn in H. inversion H; subst. vm_compute. reflexivity.
 Qed.
+
+(* ================================================================== check_defaults covers every default of an entry *)
+Lemma in_prop_default_checks : forall ps p v, In p ps -> p_state p = PDefault v -> In (p_ty p, v) (prop_default_checks ps).
+Proof.
+  intros ps p v Hin Hs. unfold prop_default_checks. apply in_flat_map. exists p. split; [exact Hin|]. rewrite Hs. now left.
+Qed.
+
+(* the whole-type default AND every member default (struct members, members of struct variants) are validated, and
+   every Generic verdict registers its shared default function *)
+Lemma check_defaults_covers : forall re T f self d,
+  get_det T self = Some d -> check_defaults re T f self = ROk tt ->
+  (forall t v, In (t, v) (entry_default_checks self d) ->
+     exists k, validate_value re T f t v = ROk k /\
+               (forall g, k = KGeneric g -> In g (registered_generics re T f self))).
+Proof.
+  intros re T f self d Hg H t v Hin. unfold check_defaults in H. rewrite Hg in H.
+  destruct (each_ok_in _ _ _ _ H (t, v) Hin) as [k Hk]. cbn beta iota in Hk. exists k. split; [exact Hk|].
+  intros g Eg. subst k. unfold registered_generics. rewrite Hg. apply in_flat_map. exists (t, v). split; [exact Hin|].
+  cbn beta iota. rewrite Hk. now left.
+Qed.
+
+Lemma check_defaults_covers_members : forall re T f self,
+  check_defaults re T f self = ROk tt ->
+  (* the type-level default of a struct / enum / newtype *)
+  (forall name v ps deny, get_det T self = Some (DStruct name (Some v) ps deny) -> exists k, validate_value re T f self v = ROk k) /\
+  (forall name v tag vs deny bes, get_det T self = Some (DEnum name (Some v) tag vs deny bes) -> exists k, validate_value re T f self v = ROk k) /\
+  (forall name v inner c, get_det T self = Some (DNewtype name (Some v) inner c) -> exists k, validate_value re T f self v = ROk k) /\
+  (* every struct member default, whether or not the struct has a type-level default *)
+  (forall name def ps deny p v, get_det T self = Some (DStruct name def ps deny) -> In p ps -> p_state p = PDefault v ->
+     exists k, validate_value re T f (p_ty p) v = ROk k /\
+               (forall g, k = KGeneric g -> In g (registered_generics re T f self))) /\
+  (* every member default of every struct variant, whether or not the enum has a type-level default *)
+  (forall name def tag vs deny bes var ps p v, get_det T self = Some (DEnum name def tag vs deny bes) ->
+     In var vs -> v_det var = VStruct ps -> In p ps -> p_state p = PDefault v ->
+     exists k, validate_value re T f (p_ty p) v = ROk k /\
+               (forall g, k = KGeneric g -> In g (registered_generics re T f self))).
+Proof.
+  intros re T f self H. repeat split.
+  - intros name v ps deny Hg. destruct (check_defaults_covers _ _ _ _ _ Hg H self v) as [k [Hk _]]; [|eauto].
+    unfold entry_default_checks. apply in_or_app. left. now left.
+  - intros name v tag vs deny bes Hg. destruct (check_defaults_covers _ _ _ _ _ Hg H self v) as [k [Hk _]]; [|eauto].
+    unfold entry_default_checks. apply in_or_app. left. now left.
+  - intros name v inner c Hg. destruct (check_defaults_covers _ _ _ _ _ Hg H self v) as [k [Hk _]]; [|eauto].
+    unfold entry_default_checks. apply in_or_app. left. now left.
+  - intros name def ps deny p v Hg Hin Hs. apply (check_defaults_covers _ _ _ _ _ Hg H).
+    unfold entry_default_checks. apply in_or_app. right. exact (in_prop_default_checks _ _ _ Hin Hs).
+  - intros name def tag vs deny bes var ps p v Hg Hvar Hd Hin Hs. apply (check_defaults_covers _ _ _ _ _ Hg H).
+    unfold entry_default_checks. apply in_or_app. right. apply in_flat_map. exists var. split; [exact Hvar|].
+    rewrite Hd. exact (in_prop_default_checks _ _ _ Hin Hs).
+Qed.
+
+(* non-vacuity / regression example: a struct WITH a type-level default whose member default is invalid is rejected,
+   and with a valid member default the shared function is registered *)
+Definition Tcd (pd : json) : space := mk_space [
+  (1, ent (DInteger (u "u32")));
+  (2, ent (DStruct (u "Inner") (Some (JObj [(u "n", JInt 5)])) [mkProp (u "n") TypeIR.RNone (PDefault pd) 1] false))
+]%N.
+Lemma check_defaults_example :
+  check_defaults re0 (Tcd (JStr (u "three"))) 3 2 = RErr /\
+  check_defaults re0 (Tcd (JInt 3)) 3 2 = ROk tt /\ registered_generics re0 (Tcd (JInt 3)) 3 2 = [GU64].
+Proof. repeat split; vm_compute; reflexivity. Qed.
